@@ -1162,8 +1162,6 @@ def oracle_rtsp(line_items, out):
     elif vframes and vsh is not None and any(p["kind"] == "video" and p["nals"] for p in pub):
         exp = [fr for fr in vframes if [x for x in fr["nals"] if nal_type(fr["codec"], x) != AUD_TYPE[fr["codec"]]]]
         if exp:
-            if vsh["codec"] == "avc" and vsh.get("counts") != (1, 1) and not late_v:
-                return False, "MULTI-PS no video packet: the AVC sequence header carries %d SPS and %d PPS" % vsh["counts"]
             if not late_v:
                 return False, "no video packet although %d frames and a sequence header were published" % len(exp)
             late.append("no video packet although %d frames and a sequence header were published" % len(exp))
@@ -1378,8 +1376,6 @@ def classify_finding(c, out):
         return "C06-ts-late-track-not-in-pmt"
     if r[1].startswith("LATE-SH"):
         return "C06-rtsp-late-sequence-header"
-    if r[1].startswith("MULTI-PS"):
-        return "C06-rtsp-avc-several-parameter-sets"
     return None
 
 
